@@ -87,7 +87,9 @@ def render(shape, choices, same_names=False):
         tid = counter[0]
         counter[0] += 1
         name = "task%d" % tid
-        body = ["async def %s(rt):" % name, "    rt.enter(%d)" % tid]
+        # (every task function also contains a comprehension whose loop variable is captured by a lambda: with inlined
+        # comprehensions that name is a local and a cell variable at once, which moves the start of the value stack)
+        body = ["async def %s(rt):" % name, "    rt.enter(%d)" % tid, "    if rt.never: z = [(lambda: q) for q in ()]"]
         if shape == "Q":
             # a leaf that waits for a worker thread running a C-implemented callable (no Python frame of its own)
             body.append("    rt.nq += 1")
@@ -148,6 +150,7 @@ def count_choice_tasks(shape):
 
 class Rt(object):
     true = True
+    never = False
 
     def __init__(s):
         import queue
